@@ -109,3 +109,26 @@ Print Assumptions C18_expired_ignored. Print Assumptions C18_srv_source. Print A
 Print Assumptions C18_v4_source. Print Assumptions C18_v6_source. Print Assumptions C18_cache_addresses_live.
 Print Assumptions C18_cache_first. Print Assumptions C18_question_types. Print Assumptions C18_pacing.
 Print Assumptions C18_sends_only_at_query_turns.
+
+(* ---- the model's comparisons are the ones the source writes now (Gen/Sites.v is regenerated from /repo on every run) ---- *)
+From ZC Require Import Gen.Sites Proofs.Sites_C18.
+Theorem C18_site_deadline : forall c h r now rnd,
+  is_complete (rq_info r) = false -> sop_apply site_info_deadline (rq_last r) now = true ->
+  snd (loop_turn c h r now rnd) = [RReturn now false].
+Proof. exact tie_loop_deadline. Qed.
+Theorem C18_site_idle : forall c h r now rnd,
+  is_complete (rq_info r) = false -> sop_apply site_info_deadline (rq_last r) now = false ->
+  sop_apply site_info_next_due (rq_next r) now = false ->
+  loop_turn c h r now rnd = (r, h, []).
+Proof. exact tie_loop_idle. Qed.
+Theorem C18_site_query : forall c h r now rnd,
+  is_complete (rq_info r) = false -> sop_apply site_info_deadline (rq_last r) now = false ->
+  sop_apply site_info_next_due (rq_next r) now = true ->
+  let qu := if rq_first r then match rq_forced r with Some b => b | None => true end else false in
+  let r' := fst (fst (loop_turn c h r now rnd)) in
+  rq_next r' = now + rq_delay r + rnd /\
+  rq_delay r' = (if negb qu && sop_apply site_info_delay_floor (rq_delay r) site_info_delay_floor_rhs
+                 then site_info_delay_floor_rhs else rq_delay r).
+Proof. exact tie_loop_query. Qed.
+Theorem C18_site_counts : sites_C18_counts. Proof. exact sites_C18_counts_ok. Qed.
+Print Assumptions C18_site_deadline. Print Assumptions C18_site_idle. Print Assumptions C18_site_query. Print Assumptions C18_site_counts.
